@@ -120,13 +120,11 @@ theorem existing_object_not_overwritten (H : Bytes → Bytes) (s : Stream) (st :
 
 /-! ### the merge driver's output file (commands/command_merge_driver.go: processFiles).
 A file opened for writing WITHOUT `O_TRUNC` keeps the old tail beyond what is written. -/
-def writeOver (trunc : Bool) (old new : Bytes) : Bytes :=
-  if trunc then new else new ++ old.drop new.length
-
+open Flt in
 /-- with `O_TRUNC` (the D2 repair) the output file holds exactly the cleaned text, whatever it held before -/
-theorem merge_driver_output_exact (old new : Bytes) : writeOver true old new = new := rfl
+theorem merge_driver_output_exact (old new : Bytes) : Flt.mergeDriverOutput old new = new := rfl
 /-- the refuted variant, kept as the regression witness of D2: a shorter new pointer keeps the old tail -/
-theorem merge_driver_tail_counterexample : writeOver false [115,105,122,101,32,49,50,51,52,53,10] [115,105,122,101,32,51,10]
+theorem merge_driver_tail_counterexample : Flt.writeOver false [115,105,122,101,32,49,50,51,52,53,10] [115,105,122,101,32,51,10]
     = [115,105,122,101,32,51,10,51,52,53,10] := by decide
 
 /-- non-vacuity of the round-trip hypotheses: an intact one-object store and content that is not a pointer -/
